@@ -128,6 +128,12 @@ impl StateMachine<'_> {
                     .output_buffer
                     .push_str(&tabs::expand(&self.raw_line, &self.config.tab_cfg));
                 self.painter.output_buffer.push('\n');
+                // An empty line is an unchanged empty line whose leading space has been removed
+                // (`diff --suppress-blank-empty`, editors, mail programs): it counts as a line
+                // of the old file when working out whether a following `--- ` is a file header.
+                if self.line.is_empty() {
+                    self.minus_line_counter.count_line();
+                }
                 State::HunkZero(Unified, None)
             }
         };
